@@ -13,8 +13,10 @@ Constructs are abstracted to what the invariant talks about: data / bounds / int
 *shapes*, the size of a domain axis, the axes named by a cell method, the coordinates and
 domain ancillaries named by a coordinate reference.
 
-Every function takes `pt : Bool`:  `pt = true`  = the code with the proposed patches
-(fixes/C02-*.patch),  `pt = false` = the code as it is.  `step = stepP true`.
+Every function takes `pt : Bool`:  `pt = true`  = the code as it is at /repo HEAD (the five repairs
+fixes/C02-*.patch are applied there: commits 0a6b21e, 05dfd6b, fba0f94, 7ccd512, 7a00732),
+`pt = false` = the code before those five commits (kept for the counter-example theorems).
+`step = stepP true`.
 -/
 namespace Cfdm.Constructs
 
@@ -178,8 +180,8 @@ def newNumGo (taken : Nat → Bool) : Nat → Nat → Nat
 def countType (s : St) (t : CType) : Nat := (s.cons.live.filter (fun p => p.1.1 = t)).length
 
 /-- `new_identifier`: start at the number of constructs of the type and count up while the key is
-taken.  Patched: taken by a construct of *any* type (`key in self._construct_type`);
-as coded: taken by a construct of the same type (`key in self._constructs[construct_type]`). -/
+taken.  At HEAD (0a6b21e): taken by a construct of *any* type (`key in self._construct_type`);
+before: taken by a construct of the same type (`key in self._constructs[construct_type]`). -/
 def newKey (pt : Bool) (s : St) (t : CType) : Key :=
   let taken : Nat → Bool := fun n =>
     if pt then (s.ctype.get ⟨t.base, n⟩).isSome else (s.cons.get (t, ⟨t.base, n⟩)).isSome
@@ -208,7 +210,8 @@ def resolveKey (pt : Bool) (s : St) (t : CType) (key : Option Key) : Option Key 
   | some k => if (s.ctype.get k).getD t = t then some k else none
 
 /-- the axes that `_set_construct_data_axes` is called with.
-Patched: a construct that replaces an existing one keeps the recorded axes only if they still fit. -/
+At HEAD (05dfd6b): a construct that replaces an existing one keeps the recorded axes only if they still fit
+(before: kept unchecked). -/
 def axesFor (pt : Bool) (s : St) (k : Key) (axes : Option (List Key)) : Option (List Key) :=
   match axes with
   | some A => some A
@@ -260,7 +263,7 @@ def pop (s : St) (t : CType) (key : Key) : St :=
 /-- `cfdm.Field.del_construct(key)` / `cfdm.Domain.del_construct(key)`:
 mixin `FieldDomain.del_construct` (resolve the key) → core `Field.del_construct` (field data guard)
 / core `Domain.del_construct` → `Constructs._del_construct`.
-Patched: `_del_construct` looks at the axes of *every* construct, at every cell method and at the
+At HEAD (fba0f94): `_del_construct` looks at the axes of *every* construct, at every cell method and at the
 field's data axes, also when it is called through a domain view. -/
 def delConstruct (pt : Bool) (s : St) (view : Bool) (key : Key) : St × Out :=
   match typeOf s view key with
@@ -276,7 +279,7 @@ def delConstruct (pt : Bool) (s : St) (view : Bool) (key : Key) : St × Out :=
 
 /-! ## field data and data axes -/
 
-/-- `Field.set_data_axes(axes)` (no key).  Patched: the axes must exist also when there is no data. -/
+/-- `Field.set_data_axes(axes)` (no key).  At HEAD (7ccd512): the axes must exist also when there is no data. -/
 def setDataAxes (pt : Bool) (s : St) (A : List Key) (shape : Option (List Nat)) : St × Out :=
   match shape with
   | some shp =>
@@ -306,7 +309,7 @@ def delData (s : St) : St × Out :=
   | some _ => ({ s with data := none }, .ok none)
   | none => (s, .rejected)
 
-/-- `Field.del_data_axes()`.  Patched: the copy kept by the constructs is cleared too. -/
+/-- `Field.del_data_axes()`.  At HEAD (fba0f94): the copy kept by the constructs is cleared too. -/
 def delDataAxes (pt : Bool) (s : St) : St × Out :=
   match s.dataAxes with
   | some _ => ({ s with dataAxes := none, fda := if pt then none else s.fda }, .ok none)
@@ -345,9 +348,15 @@ def replaceCon (s : St) (key : Key) (c : Con) (axes : Option (List Key)) : St ×
     ({ s with caxes := cx, cons := s.cons.set (t, key) c }, .ok none)
 
 /-- `DimensionCoordinate.set_data` (called when a construct is copied) accepts 1-d data only; a
-dimension coordinate that `insert_dimension(constructs=True)` made 2-d cannot be copied any more -/
+dimension coordinate that `insert_dimension(constructs=True)` made 2-d cannot be copied any more.
+Nor can a construct whose bounds do not have more dimensions than its data. -/
 def conCopyable (t : CType) (c : Con) : Bool :=
-  t != .dim || (match c.data with | some d => d.length == 1 | none => true)
+  (t != .dim || (match c.data with | some d => d.length == 1 | none => true)) &&
+  -- `__init__(source=...)` re-attaches the bounds with `set_bounds`, which wants more dimensions than the data
+  -- and the same leading dimensions (a mutator called on the contained construct can leave it otherwise)
+  (match c.data, c.bounds with
+   | some d, some b => decide (d.length < b.length) && b.take d.length == d
+   | _, _ => true)
 
 def copyable (s : St) : Bool := s.cons.live.all (fun p => conCopyable p.1.1 p.2)
 
@@ -366,6 +375,65 @@ def copyField (pt : Bool) (s : St) : St × Out :=
     | (s', .ok _) => (s', .ok none)
     | (_, .rejected) => (s, .rejected)
   | none, none => (s0, .ok none)
+
+/-- `Field.set_data(data, axes, inplace=False)`: `f = self.copy()`, the checks and assignments are made on
+`f`, which is returned; the receiver is never written to.  (The history carries on with the returned
+field; after a rejected call with the receiver.) -/
+def setDataNew (pt : Bool) (s : St) (shp : List Nat) (axes : Option (List Key)) : St × Out :=
+  match copyField pt s with
+  | (_, .rejected) => (s, .rejected)
+  | (new, .ok _) =>
+    match setData pt new shp axes with
+    | (new', .ok _) => (new', .ok none)
+    | (_, .rejected) => (s, .rejected)
+
+/-! ## direct mutation of a contained construct
+
+`c = f.construct(key)` (or `f.domain.construct(key)`, `f.constructs.shallow_copy()[key]`, an element of a
+filtered collection: all of them hand out the stored object itself) followed by a mutator of the
+construct.  The container is not involved: no check is made against the recorded axes. -/
+
+inductive Mut
+  /-- `c.set_data(data)` -/
+  | setData (shp : List Nat)
+  /-- `c.del_data()` -/
+  | delData
+  /-- `c.set_bounds(bounds)` -/
+  | setBounds (shp : List Nat)
+  /-- `c.del_bounds()` -/
+  | delBounds
+  /-- `domain_axis.set_size(n)` -/
+  | setSize (n : Nat)
+  deriving DecidableEq, Repr
+
+/-- the construct after the mutator; `none` = the construct's own checks raise
+(`DimensionCoordinate.set_data`: 1-d only; `set_bounds`: more dimensions than the data and the same
+leading dimensions; `del_data` / `del_bounds`: there is something to delete) -/
+def plainData (t : CType) : Bool := t.isArray && t != .top && t != .con
+
+def mutCon (t : CType) (c : Con) : Mut → Option Con
+  | .setData shp =>
+    if !plainData t then none
+    else if t == .dim && shp.length != 1 then none
+    else some { c with data := some shp }
+  | .delData => if plainData t && c.data.isSome then some { c with data := none } else none
+  | .setBounds b =>
+    if !(t == .dim || t == .aux || t == .dan) || c.geom then none else
+    match c.data with
+    | some d => if d.length < b.length && b.take d.length == d then some { c with bounds := some b } else none
+    | none => some { c with bounds := some b }
+  | .delBounds => if (t == .dim || t == .aux || t == .dan) && c.bounds.isSome then some { c with bounds := none } else none
+  | .setSize n => if t == .axis then some { c with size := some n } else none
+
+/-- the stored object is changed where it is: on the dictionaries this is `constructs.replace(key, c')`
+without axes, and without any check -/
+def mutate (s : St) (key : Key) (m : Mut) : St × Out :=
+  match conOf s key with
+  | none => (s, .rejected)
+  | some (t, c) =>
+    match mutCon t c m with
+    | none => (s, .rejected)
+    | some c' => replaceCon s key c' none
 
 /-! ## deriving operations -/
 
@@ -466,8 +534,17 @@ def transOne (s : St) (p : CType × Key) : Option St :=
     | none => some s
     | some d =>
       if d.length < 2 then some s else
-      -- a domain topology / cell connectivity spans one axis: `Topology.transpose([0])` changes nothing
-      if p.1 == .top || p.1 == .con then (if (s.caxes.get p.2).isSome && s.dataAxes.isSome then some s else none) else
+      -- a domain topology / cell connectivity spans one axis: `Topology.transpose(iaxes)` accepts `[0]` only and
+      -- changes nothing (data axes that name the cell axis twice give `[0, 0]`: ValueError); then the axes are re-set
+      if p.1 == .top || p.1 == .con then
+        (match s.caxes.get p.2, s.dataAxes with
+         | some cax, some nda =>
+           if (insertMissing cax (nda.filter (fun a => cax.contains a))).map (fun a => cax.idxOf a) == [0] &&
+              axesCheck s p.1 c (insertMissing cax (nda.filter (fun a => cax.contains a))) then
+             some { s with cons := s.cons.set p c,
+                           caxes := s.caxes.set p.2 (insertMissing cax (nda.filter (fun a => cax.contains a))) }
+           else none
+         | _, _ => none) else
       if !modelled p.1 then none else
       match s.caxes.get p.2, s.dataAxes with
       | some cax, some nda =>
@@ -490,6 +567,34 @@ def foldOpt {α β} (f : β → α → Option β) : β → List α → Option β
     | some b' => foldOpt f b' l
     | none => none
 
+/-- the loop over the constructs of an IN-PLACE call: it stops at the first construct whose step fails,
+with what that step leaves behind (`dmg`); the constructs before it stay changed.  (The order in which
+Python walks the dictionaries is not the order of the list: the theorems hold for every list.) -/
+def foldIP {α} (f : St → α → Option St) (dmg : St → α → St) : St → List α → St
+  | s, [] => s
+  | s, a :: l =>
+    match f s a with
+    | some s' => foldIP f dmg s' l
+    | none => dmg s a
+
+/-- what a failing step of the loop of `transpose(constructs=True)` leaves: every exception but the last
+(`f.set_data_axes(axes=new_construct_axes, key=key)`) is raised before anything was changed; that last
+one comes after `construct.transpose(iaxes, inplace=True)` -/
+def transDamage (s : St) (p : CType × Key) : St :=
+  match s.cons.get p, s.caxes.get p.2, s.dataAxes with
+  | some c, some cax, some nda =>
+    match c.data with
+    | some d =>
+      if p.1.isArray && decide (2 ≤ d.length) && modelled p.1 &&
+          nodupNat ((insertMissing cax (nda.filter (fun a => cax.contains a))).map (fun a => cax.idxOf a)) &&
+          ((insertMissing cax (nda.filter (fun a => cax.contains a))).length == d.length) then
+        match transCon c ((insertMissing cax (nda.filter (fun a => cax.contains a))).map (fun a => cax.idxOf a)) with
+        | some c' => { s with cons := s.cons.set p c' }
+        | none => s
+      else s
+    | none => s
+  | _, _, _ => s
+
 /-- the positions of a transposition; `none` = `ValueError` -/
 def transposeIdx (shp : List Nat) (perm : Option (List Nat)) : Option (List Nat) :=
   match perm with
@@ -499,8 +604,9 @@ def transposeIdx (shp : List Nat) (perm : Option (List Nat)) : Option (List Nat)
     | some ix => if ix.length = shp.length then some ix else none
     | none => none
 
-/-- `Field.transpose(axes, constructs, inplace)` (the model covers `inplace` only with
-`constructs=False`, where no failure can happen after the first change) -/
+/-- `Field.transpose(axes, constructs, inplace)`.  With `constructs=True` AND `inplace=True` a failure inside
+the loop leaves the constructs before the failing one changed (`foldIP`; the model walks its own list, Python
+its dictionaries: the driver prints `~` for that state, the theorems quantify over every order) -/
 def transposeField (pt : Bool) (s : St) (perm : Option (List Nat)) (constructs : Bool) (inplace : Bool) : St × Out :=
   if !copyGuard pt s inplace then (s, .rejected) else
   match s.data with
@@ -515,7 +621,7 @@ def transposeField (pt : Bool) (s : St) (perm : Option (List Nat)) (constructs :
         if !constructs then (s2, .ok none) else
         match foldOpt transOne s2 (s2.cons.live.map (·.1)) with
         | some s3 => (s3, .ok none)
-        | none => (s, .rejected)
+        | none => (if inplace then foldIP transOne transDamage s2 (s2.cons.live.map (·.1)) else s, .rejected)
 
 def insCon (c : Con) (p : Nat) : Con :=
   { c with data := c.data.map (fun d => d.insertIdx p 1),
@@ -539,7 +645,7 @@ def insOne (pt : Bool) (axis : Key) (position : Nat) (dataAxes0 : List Key) (s :
       | none => none
       | some cax =>
         if cax.contains axis then some s else
-        -- patched: a dimension coordinate stays one-dimensional (as coded it is made 2-d, after which
+        -- at HEAD (7a00732): a dimension coordinate stays one-dimensional (before, it was made 2-d, after which
         -- neither it nor the field can be copied)
         if pt && p.1 == .dim then some s else
         if !modelled p.1 then none else
@@ -549,6 +655,21 @@ def insOne (pt : Bool) (axis : Key) (position : Nat) (dataAxes0 : List Key) (s :
           some { s with cons := s.cons.set p (insCon c (conPosition position dataAxes0 cax)),
                         caxes := s.caxes.set p.2 (cax.insertIdx (min (conPosition position dataAxes0 cax) cax.length) axis) }
         else none
+
+/-- what a failing step of the loop of `insert_dimension(constructs=True)` leaves: every exception but the
+last (`f.set_data_axes(axes=construct_axes, key=key)`) is raised before anything was changed; that last one
+comes after `construct.insert_dimension(c_position, inplace=True)` -/
+def insDamage (pt : Bool) (axis : Key) (position : Nat) (dataAxes0 : List Key) (s : St) (p : CType × Key) : St :=
+  match s.cons.get p, s.caxes.get p.2 with
+  | some c, some cax =>
+    match c.data with
+    | some d =>
+      if p.1.isArray && !cax.contains axis && !(pt && p.1 == .dim) &&
+          decide (conPosition position dataAxes0 cax ≤ d.length) then
+        { s with cons := s.cons.set p (insCon c (conPosition position dataAxes0 cax)) }
+      else s
+    | none => s
+  | _, _ => s
 
 /-- the axis that `insert_dimension` inserts: a new domain axis of size 1, or an existing one of size 1 -/
 def insertAxisKey (pt : Bool) (s : St) (axis : Option Key) : Option (St × Key) :=
@@ -584,7 +705,9 @@ def insertField (pt : Bool) (s : St) (a : Key) (position : Nat) : St × Bool :=
   | none, none => (s, true)
 
 /-- `Field.insert_dimension(axis, position, constructs, inplace)`; `axis = none` creates a new size-1
-domain axis (the model covers `inplace` only with `constructs=False`) -/
+domain axis.  With `constructs=True` AND `inplace=True` a failure inside the loop leaves what was done so far
+(see `transposeField`); for a domain topology / cell connectivity construct with data the step always fails
+AFTER the construct was reshaped (`insDamage`; open finding) -/
 def insertDimension (pt : Bool) (s : St) (axis : Option Key) (position : Nat) (constructs : Bool)
     (inplace : Bool) : St × Out :=
   if !copyGuard pt s inplace then (s, .rejected) else
@@ -598,7 +721,11 @@ def insertDimension (pt : Bool) (s : St) (axis : Option Key) (position : Nat) (c
       match foldOpt (insOne pt a (if s1.dataAxes.isNone then 0 else position) (s1.dataAxes.getD [])) s3
               (s3.cons.live.map (·.1)) with
       | some s4 => (s4, .ok none)
-      | none => (s, .rejected)
+      | none =>
+        (if inplace then
+           foldIP (insOne pt a (if s1.dataAxes.isNone then 0 else position) (s1.dataAxes.getD []))
+             (insDamage pt a (if s1.dataAxes.isNone then 0 else position) (s1.dataAxes.getD [])) s3 (s3.cons.live.map (·.1))
+         else s, .rejected)
 
 /-- the subspace of one metadata construct in `Field.__getitem__` -/
 def subCon (c : Con) (lead : List Nat) : Con :=
@@ -714,6 +841,8 @@ def convAncil (pt : Bool) (s : St) (g : St) (v : Option Key) : Option St :=
     match s.cons.get (.dan, v) with
     | none => some g
     | some dc =>
+      -- `copy=True`: the construct is copied first
+      if !conCopyable .dan dc then none else
       match setConstruct pt g false .dan dc (some v) (s.caxes.get v) with
       | (g', .ok _) => some g'
       | (_, .rejected) => none
@@ -785,6 +914,14 @@ inductive Op
   | transpose (perm : Option (List Nat)) (constructs : Bool) (inplace : Bool)
   | insdim (axis : Option Key) (position : Nat) (constructs : Bool) (inplace : Bool)
   | convert (key : Key) (full : Bool)
+  /-- `Field.set_data(data, axes, inplace=False)` -/
+  | setdn (shape : List Nat) (axes : Option (List Key))
+  /-- a mutator called on the construct object that the field holds under `key` -/
+  | mutate (key : Key) (m : Mut)
+  /-- a mutation of a container that was derived from the field with dictionaries of its own
+  (`f.constructs.shallow_copy()`, a filtered collection, `f.domain.copy()`, `Domain(source=f)`): the
+  field's dictionaries are other objects and stay as they are -/
+  | frame
   deriving DecidableEq, Repr
 
 def stepP (pt : Bool) (s : St) : Op → St × Out
@@ -803,10 +940,13 @@ def stepP (pt : Bool) (s : St) : Op → St × Out
   | .transpose perm constructs inplace => transposeField pt s perm constructs inplace
   | .insdim axis position constructs inplace => insertDimension pt s axis position constructs inplace
   | .convert key full => convertField pt s key full
+  | .setdn shape axes => setDataNew pt s shape axes
+  | .mutate key m => mutate s key m
+  | .frame => (s, .ok none)
 
-/-- the container with the proposed patches -/
+/-- the container as coded at /repo HEAD -/
 def step (s : St) (op : Op) : St × Out := stepP true s op
-/-- the container as it is coded -/
+/-- the container before the five repairs (0a6b21e, 05dfd6b, fba0f94, 7ccd512, 7a00732) -/
 def stepOld (s : St) (op : Op) : St × Out := stepP false s op
 
 /-- `cfdm.Field()` -/
